@@ -530,6 +530,67 @@ def canon_cell(terms):
     return frozenset((t.base.id, t.bchan, t.tables, t.coef) for t in terms)
 
 
+def _lead(tb):
+    for f in tb.forms:
+        if f.d:
+            k = min(f.d, key=lambda mp: (mp[1], mp[0]))
+            return f.d[k]
+    return None
+
+
+def _unit_tables(t):
+    """(coef, tables) with every table scaled to leading coefficient 1"""
+    coef = t.coef
+    tabs = []
+    for tb in t.tables:
+        c = _lead(tb)
+        if c is None:
+            return None
+        if c != ONE:
+            tb = tb.scale(c.inv())
+            coef = coef * c
+        tabs.append(tb)
+    return coef, tuple(tabs)
+
+
+def canon_cell_scaled(terms):
+    """like canon_cell, and additionally independent of how a scalar is distributed over the axis tables"""
+    items = []
+    for t in terms:
+        if t.is_zero():
+            continue
+        u = _unit_tables(t)
+        if u is not None and not u[0].is_zero():
+            items.append((t.base, t.bchan, u[1], u[0]))
+    changed = True
+    while changed and len(items) > 1:
+        changed = False
+        n_ax = len(items[0][2])
+        for ax in range(n_ax):
+            groups = {}
+            for it in items:
+                k = (it[0].id, it[1], tuple(tb for i, tb in enumerate(it[2]) if i != ax))
+                groups.setdefault(k, []).append(it)
+            if any(len(g) > 1 for g in groups.values()):
+                new = []
+                for g in groups.values():
+                    if len(g) == 1:
+                        new.append(g[0])
+                        continue
+                    tab = g[0][2][ax].scale(g[0][3])
+                    for it in g[1:]:
+                        tab = tab.add(it[2][ax].scale(it[3]))
+                    tabs = list(g[0][2])
+                    tabs[ax] = tab
+                    u = _unit_tables(Term(g[0][0], g[0][1], tabs, ONE))
+                    if u is not None and not u[0].is_zero():
+                        new.append((g[0][0], g[0][1], u[1], u[0]))
+                items = new
+                changed = True
+                break
+    return frozenset((b.id, bc, tabs, c) for b, bc, tabs, c in items)
+
+
 class Base:
     """An input tensor of the analysed function (or a re-based intermediate)."""
     _next = [0]
@@ -598,6 +659,7 @@ class DataT:
         self.contig = True
         self.base_of = None
         self.nl = False
+        self._rebased = None
         assert cells.shape == tuple(s for k, s in self.dims if k == 'E'), (cells.shape, self.dims)
 
     # ---------------------------------------------------------- structure
@@ -799,6 +861,12 @@ class DataT:
         take = {p: a for p, k, a in s_ops if k == 'take'}
         drop = [p for p, k, a in s_ops if k == 'drop']
         full = {p: None for p in take}
+        if self.nl and (take or drop):
+            ident = all(take.get(p) == list(range(self.dims[self.s_axes()[p]][1])) for p in take)
+            if drop or not ident:
+                # a spatial re-indexing of a non-linear field: continue linearly over a fresh base
+                from . import nonlin
+                return nonlin.rebase(self)[idx]
         if take or drop:
             n_s = len(self.s_axes())
             ident = all(take.get(p) == list(range(self.dims[self.s_axes()[p]][1])) for p in take)
@@ -833,10 +901,16 @@ class DataT:
             cells = cells.copy()
         r = self.like(new_dims, cells, view=view)
         r.contig = False
+        r.nl = self.nl
         return r
 
     def __setitem__(self, idx, val):
         self.check_fresh_view()
+        if self.nl:
+            raise AnalysisError('unsupported', 'subscript store into a non-linear tensor')
+        if isinstance(val, DataT) and val.nl:
+            from . import nonlin
+            val = nonlin.rebase(val)
         if HOOKS['inplace']:
             HOOKS['inplace'](self, 'setitem')
         items = self._expand_index(idx)
